@@ -220,8 +220,8 @@ Print Assumptions C11_compound_encoder_accepts.
 (* nested compounds: ParseDatatypeMessage, then ParseCompoundType on the message and again on every member of
    class compound (what the dataset reader does) gives the whole tree back *)
 Theorem C11_compound_nested_roundtrip : forall v s fs, wf_ctype (CComp v s fs) = true ->
-  (t <- dec_datatype (enc_compound (to_compound v s fs));; dec_tree (S (depth_fields fs)) t) = Ok (CComp v s fs).
-Proof. exact compound_tree_deep_roundtrip. Qed.
+  dec_compound_tree (enc_compound (to_compound v s fs)) = Ok (CComp v s fs).
+Proof. exact compound_tree_deep_roundtrip'. Qed.
 Print Assumptions C11_compound_nested_roundtrip.
 
 (* a self-delimiting member type is parsed back exactly whatever bytes follow it (this is what lets it stand
